@@ -27,7 +27,7 @@ Definition fq_agrees (t : term) (m : read_result) (r : res unit (go_scanner * (i
 Lemma has_plus_is_prefix l : is_prefix [43%N] l = has_plus_prefix l.
 Proof. destruct l as [|c r]; [reflexivity|]. cbn [is_prefix has_plus_prefix]. rewrite andb_true_r. apply N.eqb_sym. Qed.
 
-Theorem imp_fastq_read cur toks t :
+Theorem imp_fastq_read cur (toks : list bytes) t :
   fq_agrees t (read_one (toks, t)) (imp_fastqrd_reader_read (Scanner cur toks (scan_code t) false)).
 Proof.
   unfold read_one, read_with, imp_fastqrd_reader_read, fq_agrees. cbn [fst snd].
@@ -68,4 +68,82 @@ Proof.
     destruct (Nat.eqb (length ql) (length sq)); cbn [negb after].
     + eexists. reflexivity.
     + eexists. exists 2. split; [reflexivity|lia].
+Qed.
+
+(* ---- reader.iter: read() until it fails ----------------------------------------------------------- *)
+From Bio.Proofs Require FastqProofsB.
+
+Lemma read_with_cases {A} toks t (k_rec : fastq -> list bytes -> A) k_eof k_err :
+  read_with toks t k_rec k_eof k_err
+  = match read_one (toks, t) with RRec r rest => k_rec r rest | REof => k_eof | RErr => k_err end.
+Proof.
+  unfold read_one, read_with. cbn [fst snd].
+  destruct toks as [|l1 toks1]; [destruct t; reflexivity|].
+  destruct l1 as [|c nm]; [reflexivity|]. destruct (negb (c =? AT)%N); [reflexivity|].
+  destruct toks1 as [|sq toks2]; [destruct t; reflexivity|].
+  destruct toks2 as [|plus toks3]; [destruct t; reflexivity|].
+  destruct (negb (has_plus_prefix plus)); [reflexivity|].
+  destruct toks3 as [|ql toks4]; [destruct t; reflexivity|].
+  destruct (negb (Nat.eqb (length ql) (length sq))); reflexivity.
+Qed.
+
+Lemma read_one_shorter toks t r rest : read_one (toks, t) = RRec r rest -> (length rest < length toks)%nat.
+Proof.
+  unfold read_one, read_with. cbn [fst snd].
+  destruct toks as [|l1 toks1]; [destruct t; discriminate|].
+  destruct l1 as [|c nm]; [discriminate|]. destruct (negb (c =? AT)%N); [discriminate|].
+  destruct toks1 as [|sq toks2]; [destruct t; discriminate|].
+  destruct toks2 as [|plus toks3]; [destruct t; discriminate|].
+  destruct (negb (has_plus_prefix plus)); [discriminate|].
+  destruct toks3 as [|ql toks4]; [destruct t; discriminate|].
+  destruct (negb (Nat.eqb (length ql) (length sq))); [discriminate|].
+  intros H. injection H as _ <-. cbn [length]. lia.
+Qed.
+
+Definition fqi_state : Type := (list (imp_fastqrd_Fastq * Z) * go_scanner)%type.
+Definition fqi_body : fqi_state -> res fqi_state (go_scanner * list (imp_fastqrd_Fastq * Z)) :=
+  (fun '(out__, rd__) => go_call (imp_fastqrd_reader_read rd__) (fun '(rd__, (t__1, t__2)) => let fq := t__1 in let err := t__2 in (if (negb (Z.eqb err 0%Z)) then after (if (negb (Z.eqb err 1%Z)) then (let out__ := out__ ++ [((Imp_fastqrd_Fastq [] [] []), err)] in let t__3 := true in Next out__) else Next out__) (fun out__ => Brk (out__, rd__)) else (let out__ := out__ ++ [(fq, 0%Z)] in let t__4 := true in (if (negb t__4) then Ret (rd__, out__) else Next (out__, rd__)))))).
+
+Definition fq_item_ok (i : item fastq) (o : imp_fastqrd_Fastq * Z) : Prop :=
+  match i with
+  | Rec r => o = (fq_rec r, 0)
+  | ErrItem => fst o = fq_zero /\ snd o <> 0 /\ snd o <> 1
+  end.
+
+Lemma fqi_loop t : forall n (toks : list bytes) cur fw out, (length toks <= n)%nat -> (n + 1 < fw)%nat ->
+  exists s' out', go_while fw (fun _ => Ret true) fqi_body (out, Scanner cur toks (scan_code t) false)
+                  = Next (out ++ out', s')
+    /\ Forall2 fq_item_ok (decode_toks t toks) out'.
+Proof.
+  induction n as [|n IH]; intros toks cur fw out Hn Hw;
+    (destruct fw as [|fw]; [lia|]); cbn [go_while]; unfold fqi_body at 1; cbv beta iota;
+    rewrite FastqProofsB.decode_toks_eq, read_with_cases;
+    pose proof (imp_fastq_read cur toks t) as Hr;
+    destruct (read_one (toks, t)) as [r rest| |] eqn:R; cbn [fq_agrees] in Hr.
+  - apply read_one_shorter in R. lia.
+  - destruct Hr as (s & ->). cbn [go_call]. cbv beta iota zeta. cbn [Z.eqb Pos.eqb negb after].
+    exists s, []. split; [rewrite app_nil_r; reflexivity|constructor].
+  - destruct Hr as (s & e & -> & He0 & He1). cbn [go_call]. cbv beta iota zeta.
+    replace (e =? 0) with false by lia. replace (e =? 1) with false by lia. cbn [negb after].
+    exists s, [(fq_zero, e)]. split; [reflexivity|]. constructor; [|constructor]. cbn. auto.
+  - destruct Hr as (cur' & ->). cbn [go_call]. cbv beta iota zeta. cbn [Z.eqb negb].
+    pose proof (read_one_shorter _ _ _ _ R) as Hs.
+    destruct (IH rest cur' fw (out ++ [(fq_rec r, 0)])) as (s' & out' & Hl & Hf); [lia|lia|].
+    rewrite Hl. exists s', ((fq_rec r, 0) :: out'). split; [rewrite <- app_assoc; reflexivity|].
+    constructor; [reflexivity|exact Hf].
+  - destruct Hr as (s & ->). cbn [go_call]. cbv beta iota zeta. cbn [Z.eqb Pos.eqb negb after].
+    exists s, []. split; [rewrite app_nil_r; reflexivity|constructor].
+  - destruct Hr as (s & e & -> & He0 & He1). cbn [go_call]. cbv beta iota zeta.
+    replace (e =? 0) with false by lia. replace (e =? 1) with false by lia. cbn [negb after].
+    exists s, [(fq_zero, e)]. split; [reflexivity|]. constructor; [|constructor]. cbn. auto.
+Qed.
+
+Theorem imp_fastq_iter fuel cur (toks : list bytes) t : (length toks + 1 < fuel)%nat ->
+  exists s' out, imp_fastqrd_reader_iter fuel (Scanner cur toks (scan_code t) false) = Ret (s', out)
+    /\ Forall2 fq_item_ok (decode_toks t toks) out.
+Proof.
+  intros Hf. unfold imp_fastqrd_reader_iter. cbv zeta.
+  change (go_while fuel _ _ ([], ?s)) with (go_while fuel (fun _ => Ret true) fqi_body ([], s)).
+  destruct (fqi_loop t (length toks) toks cur fuel [] (le_n _) Hf) as (s' & out' & Hl & Hfa).
+  rewrite Hl. cbn [after app]. exists s', out'. split; [reflexivity|exact Hfa].
 Qed.
